@@ -39,7 +39,7 @@ def tla_set(xs):
 
 def mc_cfg(name, mode, variant="reference", emit=False, maxmaps=2, nroots=2, prefixes=("", "a", "ab", "b"),
            shapes=("empty", "full", "deep"), maxlen=3, bases=("", "out", "r1", "r2", "r3"), invariants=None):
-    inv = invariants if invariants is not None else ["InvContained", "InvTraversal", "InvFirstRoot", "InvDeepest", "InvReference",
+    inv = invariants if invariants is not None else ["InvContained", "InvTraversal", "InvPhysical", "InvFirstRoot", "InvDeepest", "InvReference",
                                                      "InvContent", "InvDeterministic", "InvRefIsFile"]
     cfg = """SPECIFICATION Spec
 CONSTANTS
@@ -124,7 +124,9 @@ class Materialiser:
 
     def dir_for(self, case):
         cur = case["cur"]
-        key = json.dumps([case["trees"], [cur["root"], cur["rel"][:-1]] if cur["has"] else None], sort_keys=True)
+        cur2 = case.get("cur2")
+        key = json.dumps([case["trees"], [cur["root"], cur["rel"][:-1]] if cur["has"] else None,
+                          [cur2["root"], cur2["rel"][:-1]] if cur2 else None], sort_keys=True)
         d = self.made.get(key)
         if d is None:
             d = os.path.join(self.base, "t%d" % len(self.made))
@@ -132,7 +134,7 @@ class Materialiser:
             for r in ROOTS:
                 os.makedirs(os.path.join(d, r), exist_ok=True)
                 for rel in case["trees"][r]:
-                    if rel[-1] == "x":
+                    if rel[-1] in ("x", "y"):
                         continue
                     self.write(os.path.join(d, r, *rel), 'diag_log "%s";\n' % token_of(r, rel))
             for rel in SENTINELS:   # outside every root: must never come back
@@ -155,7 +157,18 @@ def driver_case(case, mat):
     cur = case["cur"]
     ops = []
     xname = "x" + case["id"]
-    if cur["has"]:
+    if case.get("cur2"):
+        # two includers in different directories with the same directive, one preprocessor run
+        cur2 = case["cur2"]
+        inc_text = render(case["req"], cdir, case["style"], True)
+        op = {"op": "includePair", "path": inc_text}
+        for c, nm, sfx in ((cur, xname, ""), (cur2, "y" + case["id"], "2")):
+            rel = c["rel"][:-1] + [nm]
+            mat.write(os.path.join(cdir, c["root"], *rel), '#include "%s"\n' % inc_text)
+            op["from" + sfx] = virt_text(c["virt"][:-1] + [nm])
+            op["fromPhys" + sfx] = "/".join([c["root"]] + rel)
+        ops.append(op)
+    elif cur["has"]:
         inc_text = render(case["req"], cdir, case["style"], True)
         xrel = cur["rel"][:-1] + [xname]
         mat.write(os.path.join(cdir, cur["root"], *xrel), '#include "%s"\n' % inc_text)
@@ -171,11 +184,14 @@ def driver_case(case, mat):
             "ops": ops}
 
 
-def trace_line(case, dcase, events):
+def trace_lines(case, dcase, events):
+    """-> list of Case lines for TLC (a pair case gives one line per includer), and a merged record for reporting"""
     trees = {r: [list(p) for p in case["trees"][r]] for r in ROOTS}
     cur = case["cur"]
-    if cur["has"] and cur["rel"] not in trees[cur["root"]]:
-        trees[cur["root"]].append(cur["rel"])
+    cur2 = case.get("cur2")
+    for c in (cur, cur2):
+        if c and c["has"] and c["rel"] not in trees[c["root"]]:
+            trees[c["root"]].append(c["rel"])
     obs = []
     begun = None
     crash = ""
@@ -183,18 +199,29 @@ def trace_line(case, dcase, events):
         if e["e"] == "Begin":
             begun = e["op"]
         elif e["e"] == "Obs":
+            begun = None
+            if "UNKNOWN" in (e["result"], e["result2"]):
+                continue    # not observable (the preprocessor run failed elsewhere): nothing to judge
             a, b = parse_result(e["result"]), parse_result(e["result2"])
             obs.append({"op": e["op"], "k": a["k"], "root": a["root"], "rel": a["rel"], "k2": b["k"], "root2": b["root"], "rel2": b["rel"]})
-            begun = None
         elif e["e"] == "Crash":
             crash = e.get("why", "crash") or "crash"
-    return {"e": "Case", "id": case["id"], "mappings": case["mappings"], "trees": trees, "req": case["req"], "cur": cur,
-            "obs": obs, "crash": crash, "crashop": begun or (dcase["ops"][0]["op"] if crash else "")}
+    crashop = begun or (dcase["ops"][0]["op"] if crash else "")
+    if crashop == "includePair":
+        crashop = "includeA"
+
+    def line(c, ob, cr):
+        return {"e": "Case", "id": case["id"], "mappings": case["mappings"], "trees": trees, "req": case["req"], "cur": c,
+                "obs": ob, "crash": cr, "crashop": crashop if cr else ""}
+    merged = line(cur, obs, crash)
+    if cur2:
+        return [line(cur, [o for o in obs if o["op"] != "includeB"], crash), line(cur2, [o for o in obs if o["op"] == "includeB"], "")], merged
+    return [merged], merged
 
 
 def describe(case, dcase):
     o = dcase["ops"][0]
-    req = 'request "%s"' % o.get("path", "") + (" included from %s" % o["from"] if "from" in o else "")
+    req = 'request "%s"' % o.get("path", "") + (" included from %s" % o["from"] if "from" in o else "") + (" and from %s" % o["from2"] if "from2" in o else "")
     maps = ", ".join("%s->%s" % (virt_text(m["virt"]), m["root"]) for m in case["mappings"])
     trees = ", ".join("%s:{%s}" % (r, " ".join("/".join(p) for p in case["trees"][r])) for r in ROOTS if case["trees"][r])
     return "mappings [%s] trees [%s] %s" % (maps, trees, req)
@@ -212,16 +239,16 @@ def run_cases(cases, wdir, tag, mat, chunks=None):
     lines = {}
     execs = []
     for c, d in zip(cases, dcases):
-        ln = trace_line(c, d, by.get(c["id"], []))
-        lines[c["id"]] = ln
-        execs.append((c["id"], [ln]))
+        lns, merged = trace_lines(c, d, by.get(c["id"], []))
+        lines[c["id"]] = merged
+        execs.append((c["id"], lns))
     bad, totals, results = vlib.validate_traces("Vfs_Trace", "Vfs_Trace.cfg", execs, wdir, tag, chunks=chunks)
     vlib.log("[C16] %s: %d cases, materialise %.1fs, driver %.1fs, TLC validation %.1fs" % (tag, len(cases), t1 - t0, t2 - t1, time.time() - t2))
     return bad, totals, results, lines, {d["id"]: d for d in dcases}
 
 
 def weight(case):
-    return (len(case["mappings"]), len(case["req"]["segs"]), 1 if case["cur"]["has"] else 0, 0 if case["req"]["base"] == "" else 1,
+    return (len(case["mappings"]), len(case["req"]["segs"]), (2 if case.get("cur2") else 1) if case["cur"]["has"] else 0, 0 if case["req"]["base"] == "" else 1,
             0 if case["style"] == "slash" else 1, sum(len(case["trees"][r]) for r in ROOTS))
 
 
@@ -241,13 +268,19 @@ def run(rep, tier, seed, replay):
         "(NOTOKEN/EXC accepted where the reference finds no file)",
         "#include paths are never rendered with '//' (the preprocessor takes it as a comment - C13 territory): such renderings use the "
         "mixed separator style",
-        "current file = an includer x in a mapped root or its directory a; script operators have no current file",
+        "current file = an includer x in a mapped root or its directory a; script operators have no current file; pair cases: a second "
+        "includer y in another directory carries the same relative directive and both are included in ONE preprocessor run (includeA / "
+        "includeB), each judged against its own directory; an observation the failed run hides (UNKNOWN) is not judged",
+        "an absolute physical path inside a mapped root must yield a file that one of its virtual translations (prefix of a mapping of "
+        "that root + path below the root) resolves to, and must be found if one of them names a file (PhysicalPathIsTranslated); which "
+        "translation wins when a root is mapped at several prefixes is not asserted",
         "observation = unique token of the file whose content came back / FileNotFound(60036) / IncludeFailed(10004) diagnostics",
         "TLC 1.8 / Json+IOUtils community modules; driver harness/cmd_vfs.cpp",
     ]
     rep.rule = ("TLC enumerates configurations (mapping sequence x tree assignment, with the possible current files) and requests; "
                 "a small bounded product is replayed completely, the large product is sampled (seeded); every case is run through "
-                "loadFile/preprocessFile/preprocessFileLineNumbers/execVM (no current file) or #include at depth 1 and 2 (current file), "
+                "loadFile/preprocessFile/preprocessFileLineNumbers/execVM (no current file) or #include at depth 1 and 2 (current file) or as a pair "
+                "of includers sharing one directive text in one preprocessor run, "
                 "twice on independent VM instances, and judged by Vfs_Trace; non-trivial = >=2 mappings or >=2 request segments; "
                 "distinct by (mappings, trees, request, current, style)")
     try:
@@ -256,9 +289,9 @@ def run(rep, tier, seed, replay):
             cases = obj["cases"]
         else:
             cases = generate(rep, tier, rng)
-        rep.evaluations = sum(2 if c["cur"]["has"] else 4 for c in cases)
+        rep.evaluations = sum((2 if c["cur"]["has"] else 4) for c in cases)
         rep.extra["cases"] = len(cases)
-        rep.extra["distinct_nontrivial"] = len({json.dumps([c["mappings"], c["trees"], c["req"], c["cur"], c["style"]], sort_keys=True)
+        rep.extra["distinct_nontrivial"] = len({json.dumps([c["mappings"], c["trees"], c["req"], c["cur"], c.get("cur2"), c["style"]], sort_keys=True)
                                                 for c in cases if len(c["mappings"]) >= 2 or len(c["req"]["segs"]) >= 2})
         bad, totals, results, lines, dcases = run_cases(cases, wdir, "c16", mat)
         for r in results:
@@ -318,7 +351,8 @@ def run(rep, tier, seed, replay):
                     continue
                 ob = [o for o in lines2[w["id"]]["obs"] if o["op"] == key.split("/")[2]]
                 seen = ("%s %s/%s" % (ob[0]["k"], ob[0]["root"], "/".join(ob[0]["rel"]))) if ob else ("crash: " + lines2[w["id"]]["crash"])
-                dops = [o for o in dcases2[w["id"]]["ops"] if o["op"] == key.split("/")[2]]
+                kop = key.split("/")[2]
+                dops = [o for o in dcases2[w["id"]]["ops"] if o["op"] == ("includePair" if kop in ("includeA", "includeB") else kop)]
                 what = "%s: %s %s -> observed %s" % (key.split("/")[1], describe(w, dcases2[w["id"]]).split(" request ")[0],
                                                      json.dumps(dops[0] if dops else {}), seen)
                 rep.finding(key, what, {"property": "C16", "key": key, "cases": [w], "driver_case": dcases2[w["id"]],
@@ -331,6 +365,11 @@ def run(rep, tier, seed, replay):
 
 
 # ------------------------------------------------------------------------------------------------
+def second_includer(c):
+    """the second includer of a pair is the model's segment y (the first one is x)"""
+    return dict(c, virt=c["virt"][:-1] + ["y"], rel=c["rel"][:-1] + ["y"])
+
+
 def generate(rep, tier, rng):
     quick = tier == "quick"
     t0 = time.time()
@@ -364,6 +403,7 @@ def generate(rep, tier, rng):
     vlib.log("[C16] design checks %.1fs" % (time.time() - t0))
     # ---- 2. two small bounded products, replayed completely (r3 is never mapped there: it keeps the full shape, as 'outside')
     cases = []
+    npairs = 0
     for nm, prefixes in (("a", ("", "a")), ("ab", ("", "ab"))):
         g = vlib.tlc("Vfs_MC", mc_cfg("gen_small_" + nm, "product", emit=True, maxmaps=2, nroots=2, prefixes=prefixes, shapes=("empty", "full"),
                                       maxlen=2 if quick else 3, bases=("",) if quick else ("", "out", "r1", "r3"), invariants=[]),
@@ -372,10 +412,37 @@ def generate(rep, tier, rng):
             raise vlib.MachineryError("generator (small product) failed: %s" % (g.error or g.violated))
         rep.add_tlc(g, "Vfs_MC generator: complete product of the small space with prefixes %s (every case emitted)" % (prefixes,))
         small = [c for c in (json.loads(p) for p in g.prints) if len(c["trees"]["r3"]) > 0]
+        groups = {}
         for c in small:
             i = len(cases)
             cases.append({"id": "s%d" % i, "mappings": c["mappings"], "trees": c["trees"], "req": dict(c["req"], style=STYLES[i % 3]),
                           "cur": c["cur"], "style": STYLES[i % 3]})
+            if c["cur"]["has"] and not c["req"]["abs"] and c["req"]["base"] == "":
+                groups.setdefault(json.dumps([c["mappings"], c["trees"], c["req"]], sort_keys=True), []).append(c)
+        # pairs: the same relative directive in two includers of different directories, ONE preprocessor run (quick: neighbours
+        # in the enumeration of the current files of a configuration, thorough: every unordered pair; the order alternates)
+        for grp in groups.values():
+            for a in range(len(grp)):
+                for b in range(a + 1, min(len(grp), a + 2) if quick else len(grp)):
+                    c1, c2 = (grp[a], grp[b]) if (a + b + len(cases)) % 2 else (grp[b], grp[a])
+                    if c1["cur"]["virt"][:-1] == c2["cur"]["virt"][:-1]:
+                        continue
+                    i = len(cases)
+                    cases.append({"id": "s%d" % i, "mappings": c1["mappings"], "trees": c1["trees"], "req": dict(c1["req"], style=STYLES[i % 3]),
+                                  "cur": c1["cur"], "cur2": second_includer(c2["cur"]), "style": STYLES[i % 3]})
+                    npairs += 1
+    # absolute physical paths into the roots of nested prefixes added parent-first and child-first (script operators)
+    g = vlib.tlc("Vfs_MC", mc_cfg("gen_small_phys", "product", emit=True, maxmaps=2, nroots=2, prefixes=("a", "ab"), shapes=("empty", "full"),
+                                  maxlen=2, bases=("r1", "r2"), invariants=[]), workers=vlib.NCPU, timeout_s=1500, xmx="8g")
+    if not g.ok:
+        raise vlib.MachineryError("generator (small physical product) failed: %s" % (g.error or g.violated))
+    rep.add_tlc(g, "Vfs_MC generator: complete product of physical requests x configurations over the prefixes /a, /a/b")
+    for c in (json.loads(p) for p in g.prints):
+        if len(c["trees"]["r3"]) > 0 and not c["cur"]["has"]:
+            i = len(cases)
+            cases.append({"id": "s%d" % i, "mappings": c["mappings"], "trees": c["trees"], "req": dict(c["req"], style=STYLES[i % 3]),
+                          "cur": c["cur"], "style": STYLES[i % 3]})
+    rep.extra["small_space_pairs"] = npairs
     rep.exhaustive = True
     rep.extra["small_space_cases"] = len(cases)
     # ---- 3. the large space: configurations x requests enumerated by TLC, product sampled
@@ -407,5 +474,10 @@ def generate(rep, tier, rng):
         q = rng.choice(req_by[rng.choice(req_keys)])
         cur = rng.choice(c["currents"]) if (c["currents"] and rng.random() < 0.4) else NOCUR
         st = rng.choice(STYLES)
-        cases.append({"id": "g%d" % i, "mappings": c["mappings"], "trees": c["trees"], "req": dict(q, style=st), "cur": cur, "style": st})
+        case = {"id": "g%d" % i, "mappings": c["mappings"], "trees": c["trees"], "req": dict(q, style=st), "cur": cur, "style": st}
+        if cur["has"] and q["base"] == "" and not q["abs"] and rng.random() < 0.5:
+            others = [o for o in c["currents"] if o["virt"][:-1] != cur["virt"][:-1]]
+            if others:
+                case["cur2"] = second_includer(rng.choice(others))
+        cases.append(case)
     return cases
